@@ -615,6 +615,10 @@ class Walker:
             # bound to a reference / copied / passed on: a const view reads, anything else may write
             if pk == "CXXConstructExpr" and re.search(r"\bMutexLockGuard$", qt(p)):
                 kind = "rd"        # lock acquisition; the mutex is a synchronisation object
+            elif pk == "CallExpr" and self._decay_copies(p, cur):
+                # std::bind / std::make_pair / std::make_tuple take forwarding references only to decay-copy their
+                # arguments into the object they return: the member is read, never written
+                kind = "ard" if atomic else "rd"
             elif pk == "VarDecl" and p.get("name", "").startswith("__range"):
                 # range-for: begin()/end() do not modify the container object; the elements handed out are
                 # other locations (not tracked)
@@ -647,6 +651,22 @@ class Walker:
                 return True
             a = unwrap(kids(a)[0])
         return a is b or unwrap(b) is a
+
+    DECAY_COPY = {"bind": "_Bind", "make_pair": "pair<", "make_tuple": "tuple<"}
+
+    def _decay_copies(self, call, cur):
+        """`call` is std::bind(...) / std::make_pair(...) / std::make_tuple(...) and `cur` is one of its arguments
+        (not the callee): libstdc++ stores `decay_t<Arg>(std::forward<Arg>(arg))`"""
+        ks = kids(call)
+        if not ks or self._same(ks[0], cur):
+            return False
+        callee = unwrap_casts(ks[0])
+        rd = callee.get("referencedDecl") or {}
+        want = self.DECAY_COPY.get(rd.get("name"))
+        if callee.get("kind") != "DeclRefExpr" or rd.get("kind") != "FunctionDecl" or want is None:
+            return False
+        # the std function, not a user function of the same name: its result type is the library's holder type
+        return want in qt(rd) or want in qt(call)
 
     def _ctor_param(self, ctor, cur):
         t = qt(ctor)
